@@ -9,5 +9,5 @@ trap 'git -C /repo worktree remove --force $WT' EXIT
 for id in "$@"; do
   out=$(cd /verif && VERIF_OUT=$WT/.verif-out VERIF_REPO=$WT VERIF_NO_RACE=${VERIF_NO_RACE:-} ./check $id $TIER 2>&1); rc=$?
   n=$(echo "$out" | grep -c '^VIOLATION')
-  echo "  $id $TIER: exit=$rc violations_lines=$n $(echo "$out" | grep -m1 'sig=' | cut -c1-260)"
+  echo "  $id $TIER: exit=$rc violations_lines=$n $(echo "$out" | grep -m1 'sig=' | cut -c1-${VERIF_CUT:-260})"
 done
